@@ -118,7 +118,7 @@ func newC18sys(g c18graph, cfg c18cfg, targets []int, calls [][]int) (*c18sys, s
 		s.mods[i] = &c18mod{idx: i, inner: c}
 		return c.svc
 	}
-	mm, _ := c18BuildL(s.lg, g.n, cfg, calls, &initLog, mk)
+	mm, _, _ := c18BuildL(s.lg, g.n, cfg, calls, &initLog, mk)
 	tn := make([]string, len(targets))
 	for i, t := range targets {
 		tn[i] = c18NameS(cfg.names, t)
@@ -414,7 +414,7 @@ func c18RunCase(g0 c18graph, cfg c18cfg, targets []int, r *rng, steps int) []str
 func c18RunCaseCalls(g0 c18graph, cfg c18cfg, targets []int, r *rng, steps int, calls [][]int) []string {
 	// the dependency lists in the order the AddDependency calls leave them; naming scheme in the head
 	g := c18Applied(g0.n, calls)
-	head := g.String() + ";" + cfg.String() + ";" + ints(targets) + ";" + strconv.Itoa(cfg.names)
+	head := g.String() + ";" + cfg.String() + ";" + ints(targets) + ";" + cfg.namesS()
 	tr := newTrack("C18.run", head)
 	defer tr.done()
 	s, errs := newC18sys(g, cfg, targets, calls)
